@@ -124,4 +124,56 @@ theorem SysAll.ctorMove {cfg : Cfg} {w : World α} {U A : List Nat} {c o : Nat} 
       exact ⟨a, b, ⟨[], keep (w' := w') (d := o) ⟨by rw [hosz]; rfl, fun i hi => by simp at hi⟩ (f o ho).1 (f o ho).2⟩,
              fun d hd _ xs hx => keep hx (f d hd).1 (f d hd).2⟩
 
+/-! ### allocator-extended move construction `small_vector (std::move (o), a)` -/
+
+/-- supplied allocator equal to the source's: the plain move construction -/
+theorem ctorMoveAlloc_equal_eq (cfg : Cfg) (c o : Nat) (w : World α) (hnd : ¬ ctorMoveAllocDelegates cfg.policy = true) :
+    ctorMoveAlloc cfg c o (w.hdr o).alloc w = SvModel.ctorMove cfg c o w := by
+  unfold ctorMoveAlloc SvModel.ctorMove
+  rw [if_neg hnd, bind_run, getV_run]; simp only []
+  rw [bind_run (m := getV o), getV_run]; simp only []
+  simp only [if_true]
+
+/-- supplied allocator different from the source's: construction by relocation with the supplied allocator -/
+theorem ctorMoveAlloc_unequal_eq_fill (cfg : Cfg) (c o a : Nat) (hne : c ≠ o) (w : World α) (hnd : ¬ ctorMoveAllocDelegates cfg.policy = true)
+    (ha : (w.hdr o).alloc ≠ a) :
+    ctorMoveAlloc cfg c o a w = SvModel.ctorFill cfg c a false (srcsMove (w.hdr o).data 0 (w.hdr o).size) w := by
+  have hne' : o ≠ c := fun h => hne h.symm
+  unfold ctorMoveAlloc SvModel.ctorFill
+  rw [if_neg hnd, bind_run, getV_run]; simp only []
+  rw [bind_run, bind_run]
+  have hsa : SvModel.setAlloc c a w = .ok () { w with hdr := upd w.hdr c { w.hdr c with alloc := a } } := rfl
+  rw [hsa]
+  simp only []
+  rw [if_neg ha]
+  generalize hw1 : ({ w with hdr := upd w.hdr c { w.hdr c with alloc := a } } : World α) = w1
+  have hc1 : w1.hdr c = { w.hdr c with alloc := a } := by subst hw1; simp
+  simp only [bind_run, getV_run, hc1]
+  simp only [srcsMove_length, uninitializedMove_false, Bool.false_eq_true, if_false]
+
+/-- ALLOCATOR-EXTENDED MOVE CONSTRUCTION in a system, every case -/
+theorem SysAll.ctorMoveAlloc {cfg : Cfg} {w : World α} {U A : List Nat} {c o : Nat} (hs : SysAll cfg w U A)
+    (hcU : c ∈ U) (hcA : c ∉ A) (ho : o ∈ A) (a : Nat)
+    (hnull : (w.hdr c).N = 0 → (w.hdr o).N = 0 → (w.hdr c).inl = (w.hdr o).inl) :
+    (SvModel.ctorMoveAlloc cfg c o a w).sat
+      (fun _ w' => SysAll cfg w' U (c :: A) ∧ (∀ xs, Holds w o xs → Holds w' c xs) ∧ (∃ ys, Holds w' o ys) ∧
+                   ∀ d ∈ A, d ≠ o → ∀ xs, Holds w d xs → Holds w' d xs)
+      (fun _ w' => SysAll cfg w' U A ∧ w'.live = w.live ∧ (∃ ys, Holds w' o ys) ∧
+                   ∀ d ∈ A, d ≠ o → ∀ xs, Holds w d xs → Holds w' d xs) := by
+  have hne : c ≠ o := fun e => hcA (e ▸ ho)
+  have keep : ∀ {w' : World α} {d : Nat} {xs : List (Val α)}, Holds w d xs → w'.hdr d = w.hdr d →
+      w'.mem (w.hdr d).data = w.mem (w.hdr d).data → Holds w' d xs :=
+    fun hx hh hm => ⟨by rw [hh]; exact hx.1, fun i hi => by rw [hh, hm]; exact hx.2 i hi⟩
+  by_cases hdel : ctorMoveAllocDelegates cfg.policy = true
+  · have : SvModel.ctorMoveAlloc cfg c o a w = SvModel.ctorMove cfg c o w := by unfold SvModel.ctorMoveAlloc; rw [if_pos hdel]
+    rw [this]; exact SysAll.ctorMove hs hcU hcA ho hnull
+  · by_cases ha : (w.hdr o).alloc = a
+    · rw [← ha, ctorMoveAlloc_equal_eq cfg c o w hdel]; exact SysAll.ctorMove hs hcU hcA ho hnull
+    · rw [ctorMoveAlloc_unequal_eq_fill cfg c o a hne w hdel ha]
+      refine Res.sat_mono (SysAll.ctorFillMove hs hcU hcA ho a) ?_ ?_
+      · intro _ w' ⟨x1, x2, _, _, x5, x6⟩
+        exact ⟨x1, x2, x5, fun d hd hdo xs hx => keep hx (x6 d hd hdo).1 (x6 d hd hdo).2⟩
+      · intro _ w' ⟨x1, x2, _, x5, x6⟩
+        exact ⟨x1, x2, x5, fun d hd hdo xs hx => keep hx (x6 d hd hdo).1 (x6 d hd hdo).2⟩
+
 end SvModel
